@@ -337,3 +337,79 @@ func VerifC04_Gff() {
 	verifObserve("c04gff", nrec, len(base), len(got))
 	verifReach("end")
 }
+
+// VerifC04_GffMeta: comment lines, a sequence-region line and an inline sequence block (with
+// an optional blank line inside it) followed by an optional feature line: the items read are
+// the same with CRLF or LF and with or without the final newline.
+func VerifC04_GffMeta() {
+	blank, trailingFeature := verifParam("blank") == 1, verifParam("feature") == 1
+	var lines [][]byte
+	lines = append(lines, []byte("# a comment"))
+	lines = append(lines, []byte("##sequence-region q 1 9"))
+	lines = append(lines, []byte("##DNA q"))
+	lines = append(lines, []byte{'#', '#', verifByte("la", 'a', 't'), verifByte("lb", 'a', 't')})
+	if blank {
+		lines = append(lines, nil)
+	}
+	lines = append(lines, []byte{'#', '#', verifByte("lc", 'a', 't')})
+	lines = append(lines, []byte("##end-DNA"))
+	if trailingFeature {
+		lines = append(lines, bytes.Join([][]byte{[]byte("q"), []byte("s"), []byte("f"), []byte("1"), []byte("2"), []byte("."), {verifByte("st", 0x21, 0x7e)}, []byte(".")}, []byte{'\t'}))
+	}
+	var text []byte
+	for _, l := range lines {
+		text = append(text, l...)
+		text = append(text, '\n')
+	}
+	parse := func(t []byte) (out []string, errs int) {
+		r := NewReader(bytes.NewReader(t))
+		for k := 0; k < len(lines)+2; k++ {
+			f, err := r.Read()
+			if err == io.EOF {
+				return
+			}
+			if err != nil {
+				errs++
+				continue
+			}
+			switch x := f.(type) {
+			case *linear.Seq:
+				out = append(out, "seq:"+x.Name()+":"+string(alphabet.LettersToBytes(x.Seq)))
+			case *Region:
+				out = append(out, "region:"+x.SeqName+":"+string(rune('0'+x.RegionStart%10))+string(rune('0'+x.RegionEnd%10)))
+			default:
+				out = append(out, "feature:"+f.Location().Name()+":"+string(rune('0'+f.Start()%10))+string(rune('0'+f.End()%10)))
+			}
+		}
+		return
+	}
+	base, berrs := parse(text)
+	var alt []byte
+	switch verifChoice("transform", 3) {
+	case 0:
+		for _, c := range text {
+			if c == '\n' {
+				alt = append(alt, '\r')
+			}
+			alt = append(alt, c)
+		}
+	case 1:
+		alt = append(alt, text[:len(text)-1]...)
+	case 2:
+		for _, c := range text[:len(text)-1] {
+			if c == '\n' {
+				alt = append(alt, '\r')
+			}
+			alt = append(alt, c)
+		}
+	}
+	got, gerrs := parse(alt)
+	verifAssert(len(got) == len(base) && gerrs == berrs, "layout-same-number-of-items")
+	if len(got) == len(base) {
+		for k := range got {
+			verifAssert(got[k] == base[k], "layout-same-items")
+		}
+	}
+	verifObserve("c04gffm", len(base), berrs, len(got), gerrs)
+	verifReach("end")
+}
